@@ -44,6 +44,21 @@ func initValue() {
 	Alias(c, "===", "==")
 	Def(
 		c,
+		"=~",
+		func(vm *Thread, args []value.Value) (value.Value, value.Value) {
+			self := args[0]
+			other := args[1]
+			result := value.LaxEqualVal(self, other)
+			if !result.IsUndefined() {
+				return result, value.Undefined
+			}
+			// values without a notion of similar classes are lax equal when they are equal
+			return Equal(vm, self, other)
+		},
+		DefWithParameters(1),
+	)
+	Def(
+		c,
 		"copy",
 		func(_ *Thread, args []value.Value) (value.Value, value.Value) {
 			self := args[0]
